@@ -1,2 +1,3 @@
 //! Reference models written from the property statements (never from the code).
 pub mod window;
+pub mod ehlers;
